@@ -11,6 +11,7 @@ T: long random histories (thousands of transactions, output indices past 255): s
 import json
 import os
 import random
+import struct
 
 from lib import datadir, btc, chains, ref, run, tracecheck, utxohist
 
@@ -266,6 +267,67 @@ def main(ck, tier, w, pid='C07'):
             if (r.rc != 0 or rows != want) and (pid == 'C07') == (cb == 'unspentcsvdump'):
                 ck.violation('%s %s over a chain indexed at heights %d..%d: exit %d, unexpected rows %s, missing rows %s' % (
                     coin, cb, h - 1, h + 1, r.rc, sorted(rows - want)[:3], sorted(want - rows)[:3]), {'coin': coin, 'heights': [h - 1, h, h + 1], 'observed': r.brief(), 'tags': []})
+
+    # ---- the longest rows there are (74-character addresses, 20-digit values, 5-digit indices, 7-digit heights), 70 000 of them:
+    # 12 MB of rows, whatever unit the writer hands them over in
+    rl = random.Random('%d-longrows' % seed)
+    lt = {'ver': 1, 'ins': [{'txid': rl.randbytes(32), 'idx': 0, 'sig': b'', 'seq': 0}],
+          'outs': [{'val': 10 ** 19 + i, 'spk': b'\x60\x28' + i.to_bytes(4, 'big') * 10} for i in range(70000)], 'lock': 0}
+    lb = [datadir.mk_block(rl.randbytes(32), [btc.coinbase(1234567, btc.p2pkh(rl.randbytes(20))), lt], t=1300000000, nonce=1)]
+    ld = datadir.simple_dir(w.sub('dd'), lb, 'bitcoin', h0=1234567)
+    ld.write()
+    lexp = ref.utxo_expected([(1234567, lb[0])], 'bitcoin')
+    for cb, pre, want in (('unspentcsvdump', 'unspent', ref.unspent_rows(lexp)), ('balances', 'balances', ref.balances_rows(lexp))):
+        if (pid == 'C07') != (cb == 'unspentcsvdump'):
+            continue
+        r = run.run_parser(ld.path, cb, dump=w.mk('out'), start=1234567, timeout=300)
+        rows = set(r.files.get('%s-1234567-1234567.csv' % pre, b'').decode('utf-8', 'replace').splitlines()[1:])
+        ck.evals()
+        ck.distinct(('longrows', cb))
+        if r.rc != 0 or rows != want:
+            ck.violation('%s of 70 001 outputs with maximal-length rows: exit %d, %d rows written, %d expected, %d of them missing' % (cb, r.rc, len(rows), len(want), len(want - rows)),
+                         {'observed': r.brief(), 'tags': []})
+
+    # ---- two transactions whose txids agree in their first (or last) four bytes, spent by adjacent inputs of one transaction:
+    # an outpoint is all 36 bytes
+    import hashlib
+    rc_ = random.Random('%d-collide' % seed)
+    spk_a, spk_b, spk_c = (btc.p2pkh(rc_.randbytes(20)) for _ in range(3))
+    base = {'ver': 1, 'ins': [{'txid': rc_.randbytes(32), 'idx': 0, 'sig': b'', 'seq': 0}], 'outs': [{'val': 700, 'spk': spk_a}, {'val': 800, 'spk': spk_b}], 'lock': 0}
+    raw = btc.ser_tx(base, False)
+    seen_p, seen_s, pairs = {}, {}, []
+    for lock in range(400000):
+        tid_ = hashlib.sha256(hashlib.sha256(raw[:-4] + struct.pack('<I', lock)).digest()).digest()
+        for seen, key in ((seen_p, tid_[:4]), (seen_s, tid_[-4:])):
+            if key in seen and len(pairs) < 2 and all(seen is not q[2] for q in pairs):
+                pairs.append((seen[key], lock, seen))
+            seen.setdefault(key, lock)
+        if len(pairs) == 2:
+            break
+    ck.cov['txid_prefix_suffix_collisions_found'] = len(pairs)
+    if pairs:
+        txs0 = [btc.coinbase(0, spk_c)]
+        spends = []
+        for l1, l2, _ in pairs:
+            t1, t2 = dict(base, lock=l1), dict(base, lock=l2)
+            txs0 += [t1, t2]
+            spends.append({'ver': 1, 'ins': [{'txid': btc.txid(t1), 'idx': 0, 'sig': b'', 'seq': 0}, {'txid': btc.txid(t2), 'idx': 0, 'sig': b'', 'seq': 0},
+                                             {'txid': btc.txid(t2), 'idx': 1, 'sig': b'', 'seq': 0}, {'txid': btc.txid(t1), 'idx': 1, 'sig': b'', 'seq': 0}][:3 + len(spends)],
+                           'outs': [{'val': 5, 'spk': spk_c}], 'lock': 7})
+        cbk = [datadir.mk_block(b'\0' * 32, txs0, t=1300000000, nonce=0)]
+        cbk.append(datadir.mk_block(cbk[0]['hash'], [btc.coinbase(1, spk_c)] + spends, t=1300000600, nonce=1))
+        cd_ = utxohist.write_chain(w, cbk)
+        out = run_both(w, cd_, 2)
+        cexp = ref.utxo_expected(list(enumerate(cbk)), 'bitcoin')
+        for cb, want in (('unspentcsvdump', ref.unspent_rows(cexp)), ('balances', ref.balances_rows(cexp))):
+            r, rows, probs, _ = out[cb]
+            ck.evals()
+            ck.distinct(('collide', cb))
+            if not probs and rows != want:
+                probs = ['rows differ from the reference: unexpected %s, missing %s' % (sorted(rows - want)[:3], sorted(want - rows)[:3])]
+            if probs and (pid == 'C07') == (cb == 'unspentcsvdump'):
+                ck.violation('%s: adjacent inputs spending transactions whose txids share four leading / trailing bytes: %s' % (cb, '; '.join(probs[:3])),
+                             {'txids': [btc.txid(t).hex() for t in txs0[1:]], 'observed': r.brief(), 'tags': []})
 
     # ---- counts beyond 16 bits: a transaction with more than 65 536 outputs / inputs (indices are 32-bit on the wire) -----------
     r0 = random.Random('%d-wide' % seed)
